@@ -18,6 +18,7 @@ type Case struct {
 	Yields []Yield `json:"yields,omitempty"`
 	Raw    *Raw    `json:"raw,omitempty"`
 	Reg    []RegOp `json:"reg,omitempty"` // registry history (C12)
+	Fcx    *FcxCase `json:"fcx,omitempty"` // unit-level flow-control explorer case
 	Tape   []int   `json:"tape,omitempty"`
 	Free   bool    `json:"free,omitempty"` // run free (stress engine) instead of stepped
 	Note   string  `json:"note,omitempty"`
@@ -175,6 +176,25 @@ type RawFrame struct {
 	Tag      int                 `json:"tag,omitempty"`      // logical RPC this frame belongs to (payload generation, x-verif-rpc tag); -1 = none
 	NoWindow bool                `json:"no_window,omitempty"` // server role: send even if the client's window does not allow it
 	Revs     []int32             `json:"revs,omitempty"`     // settings frame sent as an ordinary (late) frame
+}
+
+// FcxCase: one configuration of the unit-level flow-control explorer.
+type FcxCase struct {
+	Kind     string   `json:"kind"`               // sender | receiver | nofc_receiver
+	Window   uint32   `json:"window"`             // initial window
+	Msgs     []int    `json:"msgs,omitempty"`     // sender: message sizes
+	Credits  []uint32 `json:"credits,omitempty"`  // sender: window updates applied by the updater goroutine, in order
+	Cancel   bool     `json:"cancel,omitempty"`   // sender: "cancel the context" is one of the schedulable actions
+	FailAt   int      `json:"fail_at,omitempty"`  // sender: the k-th sendFunc call (1-based) fails; 0 = never
+	NoFC     bool     `json:"nofc,omitempty"`     // sender without flow control
+	Exhaust  bool     `json:"exhaust,omitempty"`  // enumerate every schedule (bounded by MaxRuns), else follow Tape
+	MaxRuns  int      `json:"max_runs,omitempty"`
+	Ops      []FcxOp  `json:"ops,omitempty"`      // receiver: operation sequence
+}
+
+type FcxOp struct {
+	Kind string `json:"kind"` // accept dequeue close cancel
+	Size int    `json:"size,omitempty"`
 }
 
 // RegOp: one operation of a registry history (C12).
